@@ -158,6 +158,12 @@ class LazyWorld:
         I.module_cache[("core", "PUBLIC_TABLE")] = self.P
         if not regs:
             raise AnalysisError("no core.delayed_load registration found in the package __init__")
+        # the property objects the registrations installed on the atom classes (whatever their implementation)
+        self.delayed_props = {}
+        for cq in ("core.Element", "core.Isotope", "core.Ion"):
+            for k, v in I.classes[cq].attrs.items():
+                if isinstance(v, PropertyVal) and any(k in r.names for r in regs):
+                    self.delayed_props[(cq, k)] = v
         self.boot_snapshot = self.snapshot()
 
     # -------------------------------------------------------------- snapshots
@@ -247,7 +253,15 @@ class LazyWorld:
             for k in sorted(c.attrs):
                 v = c.attrs[k]
                 if isinstance(v, PropertyVal):
-                    tag = "prop:" + (v.fget.qual if isinstance(v.fget, Closure) else "?") + ":" + str(id(v.fget.frame) if isinstance(v.fget, Closure) else 0)
+                    g = v.fget
+                    if isinstance(g, Closure):
+                        tag = "prop:" + g.qual + ":" + str(id(g.frame))
+                    elif isinstance(g, BoundMethod):
+                        tag = "prop:" + getattr(g.fn, "qual", "?") + ":" + str(getattr(g.selfval, "id", id(g.selfval)))
+                    elif isinstance(g, SymObj):
+                        tag = "prop:obj:" + str(g.id)
+                    else:
+                        tag = "prop:?" + str(id(g))
                 elif isinstance(v, (Closure, tuple)):
                     continue
                 else:
@@ -290,7 +304,7 @@ class Explorer:
         """Is the group's delayed-load property still installed on one of the atom classes?"""
         for cq in ("core.Element", "core.Isotope", "core.Ion"):
             v = self.I.classes[cq].attrs.get(self.reg.names[0])
-            if isinstance(v, PropertyVal) and isinstance(v.fget, Closure) and v.fget.qual.startswith("core.delayed_load"):
+            if isinstance(v, PropertyVal) and v is self.lw.delayed_props.get((cq, self.reg.names[0])):
                 return True
         return False
 
